@@ -509,7 +509,7 @@ impl Prop for C08 {
     }
 
     fn rule(&self) -> String {
-        "Cases: (a) stateful histories of depth-limited searches (limit 1-5) sharing one table while the game navigates: same position again, sibling, transposition by out-and-back moves of both sides, child, parent - so a deeper exact root entry often pre-exists; in-process and (1 in 5) through the real binary. Oracle: no `info depth` above the limit (decisive, no timeout involved), no panic; a 30 s watchdog without that symptom is only counted as inconclusive. (b) generated tiny positions (kings + 0-4 mutually blocked pawn pairs + 0-1 minor piece) and the curated cages searched WITHOUT limit for 0.3-1.5 s in-process (a watchdog thread plays `stop`) or through the binary (`go infinite`, `isready`, `stop`, `quit`): no panic, `info depth` strictly increasing and <= 255, the search returns within 2 s of the stop with a legal move, the binary answers readyok while searching, does not flood, exits 0; then the same positions with fixed limits 33, 34, 64, 128, 255 (same code path, independent of machine speed); three bare-king positions are searched to the depth ceiling and then again at the end of a 120-320-ply game record, where the ceiling lies below the cached depth (`go depth 250`, `go infinite`, `go depth 3` must end with a legal move; a depth-limited one that has not answered after 8 s while the process consumes no CPU time - measured from /proc over 1.5 s - is not searching any more but waiting to be stopped, which is the violation `never running on until stopped` even when the limit lies above the engine's depth ceiling); two locked fortresses in which both sides have exactly one legal move for ever are searched with `go depth 1`, `3`, `2` (after one move) and `200` through the binary and must answer (no crash, no depth above the limit); `info depth 0` is a wrapped counter. A search that does not return after the stop hangs its shard: the parent reports that case as the violation. evaluations = searches judged. Non-trivial: (a) the limit is below a depth this position was searched to before in the same table; (b) an iteration deeper than 32 was reached; distinct by script / position.".into()
+        "Cases: (a) stateful histories of depth-limited searches (limit 1-5) sharing one table while the game navigates: same position again, sibling, transposition by out-and-back moves of both sides, child, parent - so a deeper exact root entry often pre-exists; in-process and (1 in 5) through the real binary. Oracle: no `info depth` above the limit (decisive, no timeout involved), no panic; a 30 s watchdog without that symptom is only counted as inconclusive. (b) generated tiny positions (kings + 0-4 mutually blocked pawn pairs + 0-1 minor piece) and the curated cages searched WITHOUT limit for 0.3-1.5 s in-process (a watchdog thread plays `stop`) or through the binary (`go infinite`, `isready`, `stop`, `quit`): no panic, `info depth` strictly increasing and <= 255, the search returns within 2 s of the stop with a legal move, the binary answers readyok while searching, does not flood, exits 0; then the same positions with fixed limits 33, 34, 64, 128, 255 (same code path, independent of machine speed); five tiny positions (bare kings, K+B, K+P) are searched to the depth ceiling and then again at the end of a 120-396-ply game record, where the ceiling lies below the cached depth (`go depth 250`, `go infinite`, `go depth 3` must end with a legal move, on the release build and on the build with debug assertions, where an overrun of the state stack is a panic; a depth-limited one that has not answered after 8 s while the process consumes no CPU time - measured from /proc over 1.5 s - is not searching any more but waiting to be stopped, which is the violation `never running on until stopped` even when the limit lies above the engine's depth ceiling); two locked fortresses in which both sides have exactly one legal move for ever are searched with `go depth 1`, `3`, `2` (after one move) and `200` through the binary and must answer (no crash, no depth above the limit); `info depth 0` is a wrapped counter. A search that does not return after the stop hangs its shard: the parent reports that case as the violation. evaluations = searches judged. Non-trivial: (a) the limit is below a depth this position was searched to before in the same table; (b) an iteration deeper than 32 was reached; distinct by script / position.".into()
     }
 
     fn assumptions(&self) -> Vec<String> {
@@ -553,7 +553,7 @@ impl Prop for C08 {
         // curated cages and bare kings, both ways
         let cages = [34usize, 35, 36, 37, 38, 39, 6, 9, 27];
         let mut i = 0u64;
-        for (fen, plies) in [("8/8/8/4k3/8/8/4K3/8 w - - 0 1", 200u16), ("8/8/4k3/8/8/3K4/8/8 w - - 0 1", 320), ("7k/8/8/8/8/8/8/KB6 w - - 0 1", 120)] {
+        for (fen, plies) in [("8/8/8/4k3/8/8/4K3/8 w - - 0 1", 200u16), ("8/8/4k3/8/8/3K4/8/8 w - - 0 1", 320), ("7k/8/8/8/8/8/8/KB6 w - - 0 1", 120), ("8/8/8/4k3/8/8/4K3/8 w - - 0 1", 396), ("6k1/8/5K2/7P/8/8/8/8 w - - 0 1", 392)] {
             i += 1;
             if !ctx.owns(i) {
                 continue;
@@ -645,8 +645,15 @@ impl C08 {
                 while record.len() + 4 <= (*plies as usize).min(396) {
                     record.extend(cycle.iter().map(|m| m.uci()));
                 }
-                let mut s = Session::start(&[]).map_err(|e| Fail::new("harness", e))?;
-                let what = format!("{} searched to depth 255, then again after {} shuffle plies", fen, record.len());
+                // the same script on the ordinary binary and on the build with debug assertions, where an overrun of the
+                // per-ply state stack or of the move buffer ("corrupting state") is a visible panic instead of silence
+                for (bin, flavour) in [(uci::ENGINE, "release build"), (uci::ENGINE_CHECKED, "build with debug assertions")] {
+                if !std::path::Path::new(bin).exists() {
+                    ev.skip("engine build with debug assertions not available");
+                    continue;
+                }
+                let mut s = Session::start_bin(bin, &[], &[]).map_err(|e| Fail::new("harness", e))?;
+                let what = format!("{} ({}) searched to depth 255, then again after {} shuffle plies", fen, flavour, record.len());
                 s.send(&format!("position fen {}", fen));
                 s.send("go depth 255");
                 ev.eval();
@@ -672,6 +679,10 @@ impl C08 {
                         None => {
                             // not answered within 8 s: still deepening (allowed - slow), or sitting there with the limit
                             // or the depth ceiling reached and waiting to be stopped (what the statement rules out)?
+                            if let Some(pan) = s.panicked() {
+                                s.kill();
+                                return Err(Fail::new("search-panics", format!("{} : `{}` : {}", what, go, pan)));
+                            }
                             if limit.is_some() && s.idle_for(1_500) == Some(true) {
                                 let tail = s.transcript_tail(4);
                                 s.kill();
@@ -705,8 +716,16 @@ impl C08 {
                     s.send("wait");
                 }
                 ev.class("deep_then_long_runs");
-                ev.nontrivial(mix(fp_pos(&p) ^ 0xD7 ^ *plies as u64), || json!({"position": fen, "first": "go depth 255", "then_after_plies": record.len()}));
-                s.quit();
+                ev.nontrivial(mix(fp_pos(&p) ^ 0xD7 ^ *plies as u64 ^ fp_bytes(flavour.as_bytes())), || json!({"position": fen, "engine": flavour, "first": "go depth 255", "then_after_plies": record.len()}));
+                match s.quit_within(5_000) {
+                    Some(0) if s.panicked().is_none() => {}
+                    other => {
+                        let pan = s.stderr_text();
+                        s.kill();
+                        return Err(Fail::new("search-panics", format!("{} : exit status {:?} after quit, stderr: {}", what, other, pan.chars().take(300).collect::<String>())));
+                    }
+                }
+                }
                 Ok(())
             }
         }
